@@ -131,6 +131,7 @@ ADDENDA = {
  "C12": " Oracle: SMART / DeepARTMAP over every elementary module class as level model, 2..4 levels (Bayesian: decreasing ladder).",
  "C09": " Oracle: the public map_a2b on vectors and single labels.",
  "C01": " Oracle: the search as SimpleARTMAP drives it (its own reset function) against the specification scan, all eight modules.",
+ "C20": " Added (axiom-free, VAT_prim.v): Prim's rule along the WHOLE returned order (every sample after the first is an unvisited sample closest to the samples before it - by induction over the loop with its prefix/permutation invariant), and symmetry / zero diagonal of the returned matrix for such input.",
  "C04": " Added: whole-call totality for two compound estimators, TopoART and DualVigilanceART over Fuzzy ART with alpha > 0 (two-winner search, both updates, pruning rounds with re-prediction; the category-to-cluster map is total by the map invariant). Oracle: every boundary value of every hyper-parameter that validate_params accepts must train and predict (found and repaired: tau=0, r_hat<=0, sigma_init<=0, L=inf, singular cov_init); audit probes.",
  "C05": " Added (axiom-free): the same invariant for the A side of SimpleARTMAP / ARTMAP - established by a one-epoch fit, preserved by every partial_fit, together with 'one stored target per A-side label' (SAM_book.v). Oracle: a label must be usable as an index (integer dtype).",
  "C07": " Added (axiom-free): every training call of SimpleARTMAP, DualVigilanceART and TopoART leaves the wrapped module's vigilance as configured, for every kernel, mode, epsilon and reset function, through every exit path and pruning round (Wrap_rho.v).",
